@@ -100,6 +100,8 @@ JudgeFault(e) ==
 JudgeEnd(e) ==
   Tag(~e.panic, "Inv.host-panic:" \o OpTag(e.panicOp)) \o
   Tag(Le(e.gasLeft, limit), "Inv.gas-left-bound") \o
+  (* with at least 1 gas per step no run takes as many steps as the driver's bound; the EVM was cancelled there *)
+  Tag(~e.cancelled, "Inv.not-terminated-within-step-bound") \o
   Tag(e.open = 0, "Inv.frames-left-open") \o
   Tag(e.truncated \/ fst = <<>>, "Inv.frames-left-open") \o
   (* as coded, a creation that cannot pay the code deposit keeps its remaining gas (Frontier rule) *)
